@@ -753,5 +753,20 @@ func main() {
 		}
 	}
 	_ = sort.Strings
+	for _, r := range recs {
+		for i := range r.Rules {
+			var op []string
+			countOpaque(&r.Rules[i], &op)
+			for _, o := range op {
+				n++
+				fmt.Fprintf(os.Stderr, "OPAQUE rule %s: %s\n", r.Go, o)
+			}
+		}
+	}
+	for _, c := range all.Codes {
+		if c.Kind == "opaque" {
+			fmt.Fprintf(os.Stderr, "OPAQUE code table %s: %s\n", c.Name, c.Src)
+		}
+	}
 	fmt.Fprintf(os.Stderr, "extract: %d records, %d opaque layout entries\n", len(recs), n)
 }
